@@ -94,6 +94,7 @@ var registry = map[string]*PropDef{
 	"C07": {
 		Harnesses: []HarnessDef{
 			{Pkg: "cmd", Func: "VP_C07_Diff", Quick: map[string]int{"pool": 2, "depth": 2, "complen": 2, "symhash": 0}, Thorough: map[string]int{"pool": 3, "depth": 2, "complen": 2, "symhash": 0}, Share: 1.00},
+			{Pkg: "cmd", Func: "VP_Multi3", Quick: map[string]int{}, Thorough: map[string]int{}, Share: 1.00},
 			{Pkg: "cmd", Func: "VP_C07_EmptyFirst", Quick: map[string]int{}, Thorough: map[string]int{}, Share: 1.00},
 			{Pkg: "cmd", Func: "VP_C07_KindChange", Quick: map[string]int{"complen": 1, "depth": 2}, Thorough: map[string]int{"complen": 2, "depth": 2}, Share: 1.00},
 			{Pkg: "cmd", Func: "VP_C07_ResetStatus", Quick: map[string]int{"depth": 2, "complen": 2, "deepcomplen": 1, "concontent": 1, "asym": 1}, Thorough: map[string]int{"depth": 2, "complen": 2, "concontent": 1}, Share: 1.00},
@@ -106,6 +107,7 @@ var registry = map[string]*PropDef{
 	"C08": {
 		Harnesses: []HarnessDef{
 			{Pkg: "cmd", Func: "VP_C08_Positions", Quick: map[string]int{"commits": 11}, Thorough: map[string]int{"commits": 25}, Share: 1.00},
+			{Pkg: "cmd", Func: "VP_Multi3", Quick: map[string]int{}, Thorough: map[string]int{}, Share: 1.00},
 			{Pkg: "cmd", Func: "VP_C08_Twins", Quick: map[string]int{"complen": 1}, Thorough: map[string]int{"complen": 2}, Share: 1.00},
 			{Pkg: "cmd", Func: "VP_C08_Reset", Quick: map[string]int{"complen": 1, "junk": 1, "stagedextra": 0}, Thorough: map[string]int{"complen": 1, "junk": 3, "stagedextra": 0}, Share: 1.00},
 			{Pkg: "cmd", Func: "VP_C08_Reset", Quick: map[string]int{"complen": 1, "junk": 1, "stagedextra": 1, "histories": 1}, Thorough: map[string]int{"complen": 1, "junk": 1, "stagedextra": 1, "histories": 3}, Share: 1.00},
@@ -116,6 +118,7 @@ var registry = map[string]*PropDef{
 		Harnesses: []HarnessDef{
 			{Pkg: "cmd", Func: "VP_C09_Restore", Quick: map[string]int{"tracked": 2, "depth": 2, "complen": 2, "deepcomplen": 1}, Thorough: map[string]int{"tracked": 2, "depth": 2, "complen": 2}, Share: 1.00},
 			{Pkg: "cmd", Func: "VP_C04_Three", Quick: map[string]int{}, Thorough: map[string]int{}, Share: 1.00},
+			{Pkg: "cmd", Func: "VP_Multi3", Quick: map[string]int{}, Thorough: map[string]int{}, Share: 1.00},
 			{Pkg: "cmd", Func: "VP_C09_RestoreMulti", Quick: map[string]int{}, Thorough: map[string]int{}, Share: 1.00},
 			{Pkg: "cmd", Func: "VP_C09_RestoreStaged", Quick: map[string]int{"files": 1, "depth": 2, "complen": 1}, Thorough: map[string]int{"files": 2, "depth": 2, "complen": 1}, Share: 1.00},
 		},
@@ -149,6 +152,7 @@ var registry = map[string]*PropDef{
 	},
 	"C13": {
 		Harnesses: []HarnessDef{
+			{Pkg: "cmd", Func: "VP_Multi3", Quick: map[string]int{}, Thorough: map[string]int{}, Share: 1.00},
 			{Pkg: "cmd", Func: "VP_C13_Ignore", Quick: map[string]int{"complen": 1}, Thorough: map[string]int{"complen": 2}, Share: 1.00},
 			{Pkg: "cmd", Func: "VP_C13_KindChange", Quick: map[string]int{"complen": 1, "depth": 2}, Thorough: map[string]int{"complen": 2, "depth": 2}, Share: 1.00},
 			{Pkg: "cmd", Func: "VP_C13_Status", Quick: map[string]int{"tracked": 2, "depth": 2, "complen": 2, "deepcomplen": 1, "contentfixed": 1, "asym": 1, "udepth": 1}, Thorough: map[string]int{"tracked": 2, "depth": 2, "complen": 2}, Share: 1.00},
